@@ -27,7 +27,8 @@ from .. import fingerprint as fp
 from .. import obs_models as om
 
 SLOTS = ('s0', 's1', 'd0', 'd1')
-OBSERVERS = ('export', 'exportnobn', 'summary', 'cost', 'getcost')
+OBSERVERS = ('export', 'exportnobn', 'summary', 'cost', 'getcost', 'getcostb')
+COSTS = ('cost', 'getcost', 'getcostb')
 
 
 def slot_specs(spec):
@@ -42,7 +43,7 @@ def slot_specs(spec):
 
 
 def alphabet(method):
-    ops = ['export', 'summary', 'cost', 'getcost', 'forward'] + ['set:' + s for s in SLOTS]
+    ops = ['export', 'summary', 'cost', 'getcost', 'getcostb', 'forward'] + ['set:' + s for s in SLOTS]
     if method == 'pit':
         ops.append('exportnobn')
     return ops
@@ -72,16 +73,25 @@ def structure_flags(w, spec):
     return {'fixed': fixed, 'add': add, 'bn': bn, 'drop': drop}
 
 
+def sub_modes(item):
+    """(mode of BatchNorm sub-modules, mode of Dropout sub-modules): the wrapper's mode unless `mixed`
+    flips them (BatchNorm frozen by .eval() inside a train() wrapper, or the reverse)"""
+    mixed = item.get('mixed') or ''
+    tr = bool(item['train'])
+    return (tr != ('bn' in mixed), tr != ('drop' in mixed))
+
+
 def driver_line(item, flags, pinned=False):
     spec = item['spec']
     method = om.METHOD[spec['kind']]
+    bnm, drm = sub_modes(item)
     g = spec['gumbel'] and method != 'pit'
     h = spec['hard'] and method != 'pit'
     return ('walk pinned=%d method=%s gumbel=%d hard=%d disable=%d full=%d fixed=%d add=%d bn=%d drop=%d '
-            'train=%d spec=%s ops=[%s]' % (pinned, method, g, h, bool(item.get('disable')) and method == 'mps',
-                                          spec['full_cost'], flags['fixed'], flags['add'], flags['bn'], flags['drop'],
-                                          item['train'], 's0' if spec['cost'] == 'single' else 'd0',
-                                          ','.join(item['ops'])))
+            'train=%d bnmode=%d dropmode=%d spec=%s ops=[%s]'
+            % (pinned, method, g, h, bool(item.get('disable')) and method == 'mps',
+               spec['full_cost'], flags['fixed'], flags['add'], flags['bn'], flags['drop'],
+               item['train'], bnm, drm, 's0' if spec['cost'] == 'single' else 'd0', ','.join(item['ops'])))
 
 
 def component_map(ch, method):
@@ -94,6 +104,8 @@ def component_map(ch, method):
             out.add('spec')
         elif k == 'rec' and method == 'mps':
             seen_only.append('rec')      # weight ranges / bias scales: recomputed by the next forward
+        elif k == 'containers':
+            seen_only.append('containers')   # caches etc.: demanded only through the values they influence
         else:
             out.add('flags')
     order = ['modes', 'theta', 'rng', 'state', 'attrs', 'spec', 'flags']
@@ -107,6 +119,14 @@ def build_for_walk(item):
     if item.get('disable') and om.METHOD[spec['kind']] == 'mps':
         w.update_softmax_options(disable_sampling=True)
     w.train() if item['train'] else w.eval()
+    if item.get('mixed'):
+        import torch.nn as nn
+        bnm, drm = sub_modes(item)
+        for m in w.modules():
+            if isinstance(m, nn.modules.batchnorm._BatchNorm):
+                m.training = bnm
+            elif isinstance(m, nn.Dropout):
+                m.training = drm
     return w, shape
 
 
@@ -121,10 +141,15 @@ def do_op(w, op, slots, x):
         return ('n', (fp.net_fingerprint(e), e))
     if op == 'summary':
         return ('s', fp.summary_str(w.summary()))
-    if op in ('cost', 'getcost'):
+    if op in COSTS:
         try:
-            c = w.cost if op == 'cost' else w.get_cost('a')
-            return ('c', fp.thash(c) + '=' + repr(float(c)))
+            c = w.cost if op == 'cost' else w.get_cost('a' if op == 'getcost' else 'b')
+            # which cost model object was evaluated (read off the wrapper): values of different models
+            # are never the same answer, even when the numbers coincide (e.g. both 0)
+            cs = w.cost_specification
+            used = cs if not isinstance(cs, dict) else cs['a' if op == 'getcost' else 'b']
+            tag = 'f0' if used is slots['s0'] else ('f1' if used is slots['s1'] else 'f?')
+            return ('c', tag + ':' + fp.thash(c) + '=' + repr(float(c)))
         except AssertionError:
             return ('e', None)
     if op.startswith('set:'):
@@ -148,7 +173,25 @@ def run_walk(item, twin=True):
     torch.manual_seed(spec['seed'] + 5)
     flags = structure_flags(w, spec)
     res = {'flags': flags, 'steps': [], 'violations': [], 'observations': []}
-    case = {'kind': 'walk', 'spec': spec, 'train': item['train'], 'disable': bool(item.get('disable')), 'ops': list(ops)}
+    case = {'kind': 'walk', 'spec': spec, 'train': item['train'], 'disable': bool(item.get('disable')),
+            'mixed': item.get('mixed'), 'ops': list(ops)}
+    bnm, drm = sub_modes(item)
+    # does anything in a forward of this walk draw random numbers (then a twin wrapper cannot be aligned)
+    draws = (flags['drop'] and drm) or (item['train'] and spec['gumbel'] and method != 'pit' and not item.get('disable'))
+    twin_vals = {}
+
+    def twin_value(i):
+        """what the observer call `ops[i]` returns on a twin wrapper in the same state that has seen no
+        observer call before: same construction, only the non-observer calls of the walk so far"""
+        pre = tuple(o for o in ops[:i] if o not in OBSERVERS)
+        if (ops[i], pre) not in twin_vals:
+            w2, _ = build_for_walk(item)
+            torch.manual_seed(spec['seed'] + 5)
+            for o in pre:
+                do_op(w2, o, slots, x)
+            k2, v2 = do_op(w2, ops[i], slots, x)
+            twin_vals[(ops[i], pre)] = (k2, v2[0] if k2 == 'n' else v2)
+        return twin_vals[(ops[i], pre)]
     names = ['a', 'b']
 
     def probe():
@@ -199,10 +242,25 @@ def run_walk(item, twin=True):
                              'detail': {k: str(v)[:160] for k, v in ch.items()}})
         # ---- oracle: the property itself
         is_obs = op in OBSERVERS
+        if is_obs and twin and not draws:
+            # the value returned = the value a twin that was never observed returns (cost metrics queried
+            # in another order, specification switched away and back, exports, summaries)
+            k2, v2 = twin_value(i)
+            if (k2, v2) != (kind, cmpval):
+                d = fp.net_diff(v2, cmpval) if kind == 'n' and k2 == 'n' else '%s != %s' % (str(cmpval)[:60], str(v2)[:60])
+                viol('C18:cost-depends-on-call-order' if op in COSTS else 'C18:%s:%s:value-depends-on-history' % (method, op),
+                     '%s returns a value that depends on the observer calls made before it (here, after %s: %s; on a '
+                     'twin wrapper in the same state without them: the other)' % (op, [o for o in ops[:i] if o in OBSERVERS], d), i)
+            res['twin_values'] = res.get('twin_values', 0) + 1
         if is_obs:
             for comp in comps:
                 if comp in ('rng', 'attrs'):
                     continue      # not among the statement's observables (DESIGN section 6): evidence only
+                if comp == 'modes' and op in ('export', 'exportnobn') and item.get('mixed'):
+                    viol('C18:export:changes-submodule-modes',
+                         '%s changed the training mode of sub-modules that were not in the wrapper\'s mode: %s'
+                         % (op, ch.get('modes', '')[:200]), i)
+                    continue
                 viol(_key(method, op, comp), '%s changed %s of the NAS model: %s'
                      % (op, comp, '; '.join('%s: %s' % kv for kv in ch.items() if kv[0] not in ('rng', 'attrs'))[:300]), i)
             for d in derived:
@@ -213,7 +271,10 @@ def run_walk(item, twin=True):
             if 'attrs' in comps:
                 added = sorted({a for n in after['attrs'] for a in set(after['attrs'][n]) - set(before['attrs'].get(n, ()))})
                 res['observations'].append('%s.%s adds instance attributes to layers: %s' % (method, op, added))
-            if seen_only:
+            if 'containers' in seen_only:
+                res['observations'].append('%s.%s changes the contents of a container attribute: %s'
+                                           % (method, op, ch.get('containers', '').split(':')[0].split('.')[-1]))
+            if 'rec' in seen_only:
                 recnames = sorted({k.rsplit('.', 1)[1] for k in after['rec'] if before['rec'].get(k) != after['rec'][k]})
                 res['observations'].append('%s.%s changes recomputed-on-forward tensors %s (overwritten by the next forward)'
                                            % (method, op, recnames))
@@ -241,7 +302,6 @@ def run_walk(item, twin=True):
         return res
     res['final'] = {'raw': _obs_part(fp.raw(w, slots)), 'D': D}
     # ---- "as if they had not been called": the same walk without the observer calls
-    draws = item['train'] and (flags['drop'] or (spec['gumbel'] and method != 'pit' and not item.get('disable')))
     if twin and not draws and any(o in OBSERVERS for o in ops):
         w2, _ = build_for_walk(item)
         torch.manual_seed(spec['seed'] + 5)
@@ -282,13 +342,25 @@ def _cases(chk):
     items = []
 
     def add(kind, train, ops, **force):
-        spec = om.random_spec(rng, kind, **{k: v for k, v in force.items() if k != 'disable'})
-        items.append({'spec': spec, 'train': int(train), 'ops': ops, 'disable': force.get('disable', False)})
+        extra = ('disable', 'mixed')
+        spec = om.random_spec(rng, kind, **{k: v for k, v in force.items() if k not in extra})
+        items.append({'spec': spec, 'train': int(train), 'ops': ops, 'disable': force.get('disable', False),
+                      'mixed': force.get('mixed')})
     # fixed walks first: an export and a summary in the middle of training, then the cost
     for kind in om.KINDS:
         for cost in ('single', 'dict'):
             c = 'cost' if cost == 'single' else 'getcost'
             add(kind, 1, ['forward', 'export', c, 'summary', c, 'export'], cost=cost, hard=False)
+        # cost metrics of a dictionary specification queried in both orders, on the whole network
+        # (full_cost) and on the searchable part; specification switched away and back in between
+        for full in (True, False):
+            add(kind, 0, ['forward', 'getcostb', 'getcost', 'getcostb', 'set:s1', 'cost', 'set:d0', 'getcostb'],
+                cost='dict', full_cost=full)
+            add(kind, 1, ['forward', 'getcost', 'getcostb', 'set:d1', 'getcostb', 'set:d0', 'getcostb', 'getcost'],
+                cost='dict', full_cost=full, dropout=False, gumbel=False)
+        # mixed sub-module modes: BatchNorm / Dropout frozen inside a training wrapper, and the reverse
+        add(kind, 1, ['forward', 'export', 'forward', 'summary', 'export', 'forward'], mixed='bn+drop', gumbel=False)
+        add(kind, 0, ['forward', 'export', 'forward', 'cost', 'export'], mixed='bn+drop', cost='single')
     add('sn', 1, ['forward', 'summary', 'cost', 'summary', 'export', 'cost'], gumbel=True, cost='single', hard=False)
     add('sn', 1, ['forward', 'getcost', 'summary', 'getcost', 'forward', 'summary'], gumbel=True, cost='dict')
     add('mpsl', 1, ['forward', 'cost', 'set:s1', 'cost', 'set:s0', 'cost'], cost='single')
@@ -301,6 +373,8 @@ def _cases(chk):
                 force = {}
                 if om.METHOD[kind] == 'mps' and rng.random() < 0.2:
                     force['disable'] = True
+                if rng.random() < 0.35:
+                    force['mixed'] = rng.choice(['bn', 'drop', 'bn+drop'])
                 add(kind, train, gen_walk(rng, om.METHOD[kind]), **force)
     if not chk.quick:
         # every ordered pair of calls after the initial forward, per architecture kind and mode
@@ -351,7 +425,7 @@ def run(chk):
                 if coin:
                     real, p = _drop_coin(real, st['op']), _drop_coin(p, st['op'])
                 chk.corr({'spec': it['spec'], 'train': it['train'], 'disable': it.get('disable', False),
-                          'ops': it['ops'][:i + 1], 'detail': st['detail']}, real, p,
+                          'mixed': it.get('mixed'), 'ops': it['ops'][:i + 1], 'detail': st['detail']}, real, p,
                          'components changed by call %d (%s) and class of what it returned' % (i, st['op']))
                 key = '%s:%s:%s' % (method, st['op'].split(':')[0], ','.join(st['changed']) or '-')
                 chk.hist[key] = chk.hist.get(key, 0) + 1
@@ -359,9 +433,13 @@ def run(chk):
             chk.violation(v['key'], v['what'], v['case'])
         for o in r['observations']:
             chk.observe(o)
-        chk.count((json.dumps(it['spec'], sort_keys=True), it['train'], tuple(it['ops']), it.get('disable', False)),
+        chk.hist['twin-values-compared'] = chk.hist.get('twin-values-compared', 0) + r.get('twin_values', 0)
+        if it.get('mixed'):
+            chk.hist['mixed-modes-walks'] = chk.hist.get('mixed-modes-walks', 0) + 1
+        chk.count((json.dumps(it['spec'], sort_keys=True), it['train'], tuple(it['ops']), it.get('disable', False),
+                   it.get('mixed')),
                   nontrivial=any(o in OBSERVERS for o in it['ops'][1:]),
-                  sample={'spec': it['spec'], 'train': it['train'], 'ops': it['ops'],
+                  sample={'spec': it['spec'], 'train': it['train'], 'mixed': it.get('mixed'), 'ops': it['ops'],
                           'impl': ['%s:%s' % (','.join(s['changed']) or '-', s['class']) for s in r['steps']]},
                   bucket='%s:%s' % (it['spec']['kind'], 'train' if it['train'] else 'eval'))
         if 'twin' in r:
@@ -383,7 +461,8 @@ def run(chk):
                 for _ in range(20 if chk.quick else 60):
                     spec = om.random_spec(rng, kind)
                     extra.append({'spec': spec, 'train': train, 'ops': gen_walk(rng, om.METHOD[kind]),
-                                  'disable': om.METHOD[kind] == 'mps' and rng.random() < 0.2})
+                                  'disable': om.METHOD[kind] == 'mps' and rng.random() < 0.2,
+                                  'mixed': rng.choice([None, None, 'bn', 'drop', 'bn+drop'])})
         for it, r in zip(extra, common.pmap(run_walk, extra)):
             for v in r['violations']:
                 chk.violation(v['key'], v['what'], v['case'])
@@ -402,8 +481,9 @@ def _shrink(case, key):
     ops = list(case['ops'])
 
     def fails(o):
-        r = run_walk({'spec': case['spec'], 'train': case['train'], 'disable': case.get('disable', False), 'ops': o},
-                     twin=key.endswith('continues-differently'))
+        r = run_walk({'spec': case['spec'], 'train': case['train'], 'disable': case.get('disable', False),
+                      'mixed': case.get('mixed'), 'ops': o},
+                     twin=key.endswith(('continues-differently', 'call-order', 'value-depends-on-history')))
         return any(v['key'] == key for v in r['violations'])
     changed = True
     while changed and len(ops) > 2:
@@ -419,7 +499,8 @@ def _shrink(case, key):
 def replay(data):
     common.use_repo_on_path()
     case = data['case']
-    r = run_walk({'spec': case['spec'], 'train': case['train'], 'disable': case.get('disable', False), 'ops': case['ops']})
+    r = run_walk({'spec': case['spec'], 'train': case['train'], 'disable': case.get('disable', False),
+                  'mixed': case.get('mixed'), 'ops': case['ops']})
     for st in r['steps']:
         print('%-12s changed=%s returned=%s derived-observables-changed=%s %s'
               % (st['op'], st['changed'] or '-', st['class'], st['derived'] or '-', st['detail'] if st['changed'] else ''))
